@@ -38,8 +38,33 @@ BITMAP = "src/tree_store/page_store/bitmap.rs"
 PM = "src/tree_store/page_store/page_manager.rs"
 HEADER = "src/tree_store/page_store/header.rs"
 
+TT = "src/transaction_tracker.rs"
+CF = "src/tree_store/page_store/cached_file.rs"
+
+
+def hdr(name, ret, pat):
+    """an expression of UnrepairedDatabaseHeader::from_bytes over the header bytes `data`"""
+    return (HEADER, "UnrepairedDatabaseHeader::from_bytes",
+            {"name": name, "ret": ret, "snippet": pat, "params": [("data", "&[u8]")]})
+
+
+def slot(name, ret, pat):
+    """an expression of TransactionHeader::from_bytes over the 128 bytes `data` of a commit slot"""
+    return (HEADER, "TransactionHeader::from_bytes",
+            {"name": name, "ret": ret, "snippet": pat, "params": [("data", "&[u8]")]})
+
+
+# BranchAccessor is generic over the page type: `self.page.memory()` is the byte slice parameter `page`
+BR = {"resub": [(r"self\s*\.page\s*\.memory\(\)", "page")], "params": [("page", "&[u8]")]}
+BRI = {"params": [("page", "&[u8]")]}       # no direct read, but calls functions that take `page`
+
 # structs translated to Coq Records (file, name)
-STRUCTS = [(LAYOUT, "RegionLayout"), (LAYOUT, "DatabaseLayout"), (BASE, "PageNumber")]
+STRUCTS = [(LAYOUT, "RegionLayout"), (LAYOUT, "DatabaseLayout"), (BASE, "PageNumber"),
+           (BTB, "BtreeHeader", "soft"), ("src/transactions.rs", "TransactionIdWithPagination", "soft")]
+
+# enums with unit variants only, translated to Coq Inductives (file, name)
+ENUMS = [("src/tree_store/multimap_btree.rs", "DynamicCollectionType"), ("src/types.rs", "TypeClassification"),
+         (PM, "ShrinkPolicy")]
 
 # (file, qualified name, options).  Callees before callers.
 #   fuel: bound of `while` loops (N.iter-style fuel; exact when the loop ends within that many rounds)
@@ -124,11 +149,163 @@ WANT = [
     (PM, "ceil_log2", {}),
     ("src/transactions.rs", "PageList::required_bytes", {}),
     ("src/complex_types.rs", "encode_varint_len", {}),
+    # ---------------------------------------------------------------- wave 2: byte codecs, decisions, horizons
+    ("src/complex_types.rs", "decode_varint_len", {}),
+    (TT, "TransactionId::new", {}),
+    (TT, "TransactionId::raw_id", {}),
+    (TT, "TransactionId::next", {}),
+    (TT, "SavepointId::next", {}),
+    (TT, "SavepointId::from_bytes", {"trait": "Value", "ret": "SavepointId"}),
+    (TT, "SavepointId::compare", {"trait": "Key"}),
+    (BTB, "BtreeHeader::serialized_size", {}),
+    (BTB, "BtreeHeader::from_le_bytes", {}),
+    (BTB, "BtreeHeader::to_le_bytes", {}),
+    # header.rs: field readers, god byte, validation of the geometry, slot selection, stored layout
+    (HEADER, "get_u32", {}),
+    (HEADER, "get_u64", {}),
+    hdr("header_primary_slot", "usize", r"let primary_slot = (usize::from\(data\[GOD_BYTE_OFFSET\] & PRIMARY_BIT != 0\));"),
+    hdr("header_recovery_required", "bool", r"let recovery_required = (\(data\[GOD_BYTE_OFFSET\] & RECOVERY_REQUIRED\) != 0);"),
+    hdr("header_two_phase_commit", "bool", r"let two_phase_commit = (\(data\[GOD_BYTE_OFFSET\] & TWO_PHASE_COMMIT\) != 0);"),
+    hdr("header_page_size", "u32", r"let page_size = (get_u32\(&data\[PAGE_SIZE_OFFSET\.\.\]\));"),
+    hdr("header_region_header_pages", "u32", r"let region_header_pages = (get_u32\(&data\[REGION_HEADER_PAGES_OFFSET\.\.\]\));"),
+    hdr("header_region_max_data_pages", "u32", r"let region_max_data_pages = (get_u32\(&data\[REGION_MAX_DATA_PAGES_OFFSET\.\.\]\));"),
+    hdr("header_full_regions", "u32", r"let full_regions = (get_u32\(&data\[NUM_FULL_REGIONS_OFFSET\.\.\]\));"),
+    hdr("header_trailing_data_pages", "u32", r"let trailing_data_pages = (get_u32\(&data\[TRAILING_REGION_DATA_PAGES_OFFSET\.\.\]\));"),
+    (HEADER, "UnrepairedDatabaseHeader::from_bytes", {
+        "name": "header_geometry_checks", "ret": "Result<()>", "tail": "Ok(())",
+        "snippet": r"(?s)(if page_size != expected_page_size \{.*?)if !recovery_required \{",
+        "params": [("page_size", "u32"), ("expected_page_size", "u32"), ("region_max_data_pages", "u32"),
+                   ("region_header_pages", "u32")]}),
+    (HEADER, "UnrepairedDatabaseHeader::from_bytes", {
+        "name": "header_stored_counts_checks", "ret": "Result<()>", "tail": "Ok(())",
+        "snippet": r"(?s)if !recovery_required \{(.*?)\n        \}\n\s*let \(slot0, slot0_corrupted\)",
+        "params": [("trailing_data_pages", "u32"), ("region_max_data_pages", "u32"), ("full_regions", "u32")]}),
+    hdr("header_slot0_bytes", "&[u8]", r"(&data\[TRANSACTION_0_OFFSET\.\.\(TRANSACTION_0_OFFSET \+ TRANSACTION_SIZE\)\]),"),
+    hdr("header_slot1_bytes", "&[u8]", r"(&data\[TRANSACTION_1_OFFSET\.\.\(TRANSACTION_1_OFFSET \+ TRANSACTION_SIZE\)\]),"),
+    slot("slot_version", "u8", r"let version = (data\[VERSION_OFFSET\]);"),
+    slot("slot_stored_checksum", "u128", r"(?s)let checksum = (Checksum::from_le_bytes\(.*?\.unwrap\(\),\s*\));"),
+    slot("slot_checksummed_bytes", "&[u8]", r"xxh3_checksum\((&data\[\.\.SLOT_CHECKSUM_OFFSET\])\)"),
+    slot("slot_user_root", "Option<BtreeHeader>", r"(?s)let user_root = (if data\[USER_ROOT_NON_NULL_OFFSET\] != 0 \{.*?\} else \{\s*None\s*\});"),
+    slot("slot_system_root", "Option<BtreeHeader>", r"(?s)let system_root = (if data\[SYSTEM_ROOT_NON_NULL_OFFSET\] != 0 \{.*?\} else \{\s*None\s*\});"),
+    slot("slot_transaction_id", "u64", r"TransactionId::new\((get_u64\(&data\[TRANSACTION_ID_OFFSET\.\.\]\))\)"),
+    (HEADER, "UnrepairedDatabaseHeader::select_primary_slot", {
+        "mut_self": True,
+        "resub": [(r"self\.inner\.swap_primary_slot\(\);", ""),
+                  (r"(?s)let primary = self\.inner\.primary_slot\(\)\.clone\(\);\s*self\.inner\.transaction_slots\[self\.inner\.primary_slot \^ 1\] = primary;", ""),
+                  (r"self\s*\.inner\s*\.secondary_slot\(\)\s*\.transaction_id", "secondary_transaction_id"),
+                  (r"self\s*\.inner\s*\.primary_slot\(\)\s*\.transaction_id", "primary_transaction_id")],
+        "params": [("primary_transaction_id", "u64"), ("secondary_transaction_id", "u64")]}),
+    (HEADER, "DatabaseHeader::layout", {}),
+    # btree_base.rs: offset tables of the leaf / branch accessors
+    (BTB, "LeafAccessor::num_pairs", {}),
+    (BTB, "LeafAccessor::key_section_start", {}),
+    (BTB, "LeafAccessor::key_end", {}),
+    (BTB, "LeafAccessor::key_start", {}),
+    (BTB, "LeafAccessor::value_end", {}),
+    (BTB, "LeafAccessor::value_start", {}),
+    (BTB, "LeafAccessor::total_length", {}),
+    (BTB, "LeafAccessor::entry_ranges", {}),
+    (BTB, "BranchAccessor::num_keys", {}),
+    (BTB, "BranchAccessor::count_children", {}),
+    (BTB, "BranchAccessor::key_section_start", {}),
+    (BTB, "BranchAccessor::key_end", BR),
+    (BTB, "BranchAccessor::key_offset", BRI),
+    (BTB, "BranchAccessor::total_length", BRI),
+    (BTB, "BranchAccessor::child_checksum", BR),
+    (BTB, "BranchAccessor::child_page", BR),
+    # transactions.rs: system table records and keys, free horizons
+    ("src/transactions.rs", "PageList::len", {}),
+    ("src/transactions.rs", "PageList::get", {}),
+    ("src/transactions.rs", "TransactionIdWithPagination::from_bytes", {"trait": "Value"}),
+    ("src/transactions.rs", "TransactionIdWithPagination::as_bytes", {
+        "trait": "Value", "retype": {"value": "&TransactionIdWithPagination"}}),
+    ("src/transactions.rs", "TransactionIdWithPagination::compare", {"trait": "Key"}),
+    ("src/transactions.rs", "WriteTransaction::durable_commit", {
+        "name": "durable_commit_free_until", "ret": "TransactionId",
+        "snippet": r"let free_until_transaction = (self\s*\.transaction_tracker\s*\.oldest_live_read_transaction\(\)\s*\.map_or\(self\.transaction_id, \|x\| x\.next\(\)\));",
+        "resub": [(r"self\s*\.transaction_tracker\s*\.oldest_live_read_transaction\(\)", "oldest_live_read"),
+                  (r"self\.transaction_id", "transaction_id")],
+        "params": [("oldest_live_read", "Option<TransactionId>"), ("transaction_id", "TransactionId")]}),
+    ("src/transactions.rs", "WriteTransaction::non_durable_commit", {
+        "name": "non_durable_commit_free_until", "ret": "TransactionId",
+        "snippet": r"let free_until_transaction = (self\s*\.transaction_tracker\s*\.oldest_live_read_nondurable_transaction\(\)\s*\.map_or\(self\.transaction_id, \|x\| x\.next\(\)\));",
+        "resub": [(r"self\s*\.transaction_tracker\s*\.oldest_live_read_nondurable_transaction\(\)", "oldest_live_read_nd"),
+                  (r"self\.transaction_id", "transaction_id")],
+        "params": [("oldest_live_read_nd", "Option<TransactionId>"), ("transaction_id", "TransactionId")]}),
+    ("src/transactions.rs", "WriteTransaction::process_data_freed_pages_after_commit", {
+        "name": "epilogue_free_until", "ret": "TransactionId", "tail": "free_until",
+        "snippet": r"(?s)(let epilogue_transaction = self\.transaction_id\.next\(\);.*?free_until = free_until\.min\(TransactionId::new\(savepoint_horizon\)\.next\(\)\);\s*\})",
+        "resub": [(r"self\s*\.transaction_tracker\s*\.oldest_live_read_transaction\(\)", "oldest_live_read"),
+                  (r"self\.transaction_id", "transaction_id")],
+        "params": [("oldest_live_read", "Option<TransactionId>"), ("transaction_id", "TransactionId"),
+                   ("savepoint_horizon", "u64")]}),
+    # savepoint.rs: the persistent savepoint record
+    ("src/tree_store/page_store/savepoint.rs", "SerializedSavepoint::to_savepoint", {
+        "ret": "Result<((u8, u64), (u64, Option<BtreeHeader>))>",
+        "resub": [(r"self\.data\(\)", "data"),
+                  (r"(?s)Ok\(Savepoint \{.*?\}\)", "Ok(((version, id), (transaction_id, user_root)))")],
+        "drop_params": ["transaction_tracker"], "params": [("data", "&[u8]")]}),
+    # multimap_btree.rs: the value collection header
+    ("src/tree_store/multimap_btree.rs", "DynamicCollectionType::from", {"trait": "From<u8>"}),
+    ("src/tree_store/multimap_btree.rs", "DynamicCollectionType::into", {"trait": "Into<u8>"}),
+    ("src/tree_store/multimap_btree.rs", "UntypedDynamicCollection::collection_type", {}),
+    ("src/tree_store/multimap_btree.rs", "UntypedDynamicCollection::as_inline", {}),
+    ("src/tree_store/multimap_btree.rs", "UntypedDynamicCollection::as_subtree", {}),
+    # types.rs: classification byte, little-endian integer keys (instances of the le_value! / le_impl! macros)
+    ("src/types.rs", "TypeClassification::to_byte", {}),
+    ("src/types.rs", "TypeClassification::from_byte", {}),
+    ("src/types.rs", "le_u64::from_bytes", {"macro": ("le_value", {"<$t>": "u64", "$t": "u64"})}),
+    ("src/types.rs", "le_u64::compare", {"macro": ("le_impl", {})}),
+    ("src/types.rs", "le_u32::from_bytes", {"macro": ("le_value", {"<$t>": "u32", "$t": "u32"})}),
+    ("src/types.rs", "le_u32::compare", {"macro": ("le_impl", {})}),
+    ("src/types.rs", "le_u128::from_bytes", {"macro": ("le_value", {"<$t>": "u128", "$t": "u128"})}),
+    ("src/types.rs", "le_u128::compare", {"macro": ("le_impl", {})}),
+    # base.rs: the order of page numbers
+    (BASE, "PageNumber::cmp", {"trait": "Ord"}),
+    # page_manager.rs: commit / shrink decisions, page order check
+    (PM, "TransactionalMemory::check_page_order", {}),
+    (PM, "TransactionalMemory::commit", {
+        "name": "commit_shrink_attempted", "ret": "bool",
+        "snippet": r"let shrunk = if (!matches!\(shrink_policy, ShrinkPolicy::Never\)) \{",
+        "params": [("shrink_policy", "ShrinkPolicy")]}),
+    (PM, "TransactionalMemory::commit", {
+        "name": "commit_shrink_force", "ret": "bool",
+        "snippet": r"Self::try_shrink\(&mut state, (matches!\(shrink_policy, ShrinkPolicy::Maximum\))\)\?",
+        "params": [("shrink_policy", "ShrinkPolicy")]}),
+    (PM, "TransactionalMemory::try_shrink", {
+        "name": "try_shrink_reduce_by", "ret": "Option<u32>", "tail": "Some(reduce_by)",
+        "snippet": r"(?s)(if trailing_free == 0 \{.*?trailing_free / 2\s*\};)",
+        "resub": [(r"return Ok\(false\);", "return None;"), (r"layout\.num_regions\(\)", "num_regions")],
+        "params": [("trailing_free", "u32"), ("last_allocator_len", "u32"), ("num_regions", "u32"), ("force", "bool")]}),
+    # region.rs: the length table of the serialized region tracker (a `for` loop)
+    ("src/tree_store/page_store/region.rs", "RegionTracker::from_bytes", {
+        "name": "region_tracker_allocator_lens", "ret": "(Vec<usize>, usize)", "tail": "(allocator_lens, start)",
+        "snippet": r"(?s)(let orders = u32::from_le_bytes.*?start \+= size_of::<u32>\(\);\s*\})\s*let mut data",
+        "params": [("page", "&[u8]")]}),
+    # cached_file.rs: lock striping and the cache budget tests
+    (CF, "PagedCachedFile::lock_stripes", {}),
+    (CF, "PagedCachedFile::write_buffer_stripe", {
+        "name": "cache_stripe_of", "ret": "usize", "keep_impl": True,
+        "snippet": r"let stripe: usize = (\(offset % Self::lock_stripes\(\)\)\.try_into\(\)\.unwrap\(\));",
+        "params": [("offset", "u64")]}),
+    (CF, "PagedCachedFile::write", {
+        "name": "cache_write_over_half", "ret": "bool",
+        "snippet": r"(?s)(let mut write_bytes = previous \+ len;\s*let half = self\.max_cache_size / 2;).*?if (write_bytes > half) \{\s*let mut excess",
+        "resub": [(r"self\.max_cache_size", "max_cache_size")],
+        "params": [("previous", "usize"), ("len", "usize"), ("max_cache_size", "usize")]}),
 ]
 
 # prefixes gen_consts.py gives to the constants of a file (kept in sync by importing its table)
 import gen_consts  # noqa: E402
 CONST_PREFIX = {rel: pre for rel, (pre, _) in gen_consts.WANT.items()}
+
+# newtype structs `struct T(u64)` and type aliases: the wrapped integer
+NEWTYPES = {"TransactionId": "u64", "SavepointId": "u64"}
+ALIASES = {"Checksum": "u128"}
+# Rust enums with unit variants only.  `Ordering` is Coq's `comparison`; the others (ENUMS below) get a generated
+# Inductive `<E> := <E>_<Variant> | ...`
+ENUM_COQ = {"Ordering": "comparison"}
+BUILTIN_ENUMS = {"Ordering": [("Less", "Lt"), ("Equal", "Eq"), ("Greater", "Gt")]}
 
 INTW = {"u8": 8, "u16": 16, "u32": 32, "u64": 64, "u128": 128, "usize": 64}
 SIZEOF = {"u8": 1, "u16": 2, "u32": 4, "u64": 8, "u128": 16, "usize": 8, "Checksum": 16}
@@ -159,7 +336,11 @@ def coq_ty(t):
             return "(%s * %s)" % (coq_ty(t[1]), coq_ty(t[2]))
         if t[0] == "rec":
             return t[1]
-    return {"bool": "bool", "unit": "unit", "bytes": "(list N)"}[t]
+        if t[0] == "enum":
+            return ENUM_COQ.get(t[1], t[1])
+        if t[0] == "vec":
+            return "(list %s)" % coq_ty(t[1])
+    return {"bool": "bool", "unit": "unit", "bytes": "(list N)", "slice": "(list N)"}[t]
 
 
 def is_int(t):
@@ -173,7 +354,9 @@ class Var:
 
 class Fn:
     """one located + parsed function"""
-    pass
+    selfchains = ()
+    selfty = None
+    implicit = frozenset()
 
 
 class Gen:
@@ -181,6 +364,7 @@ class Gen:
         self.repo = repo
         self.files = {}
         self.records = {}       # name -> [(field, type)]
+        self.enums = dict(BUILTIN_ENUMS)   # name -> [(variant, coq constructor)]
         self.fns = {}           # qualified rust name -> Fn (translated so far)
         self.index = []         # "coq name  file:line0-line1  sha1" (written to Fns.index, not into Fns.v)
         self.consts = None
@@ -249,13 +433,27 @@ class Gen:
         f.impl = qual.split("::")[0] if "::" in qual else None
         name = qual.split("::")[-1]
         spans = []
-        if f.impl:
+        macro_subst = {}
+        if "macro" in opts:
+            # the fn is inside `macro_rules! <m> { .. }`; `$x` parameters are replaced textually (an instantiation)
+            mname, macro_subst = opts["macro"]
+            m = re.search(r"^macro_rules!\s+%s\s*\{" % re.escape(mname), masked, flags=re.M)
+            if not m:
+                raise Err("%s: macro_rules! %s not found" % (rel, mname))
+            spans.append((m.end() - 1, match_brace(masked, m.end() - 1)))
+            rx = re.compile(r"^[ \t]+(?:pub(?:\([a-z]+\))?\s+)?(?:const\s+)?fn\s+%s\b" % re.escape(name), re.M)
+        elif f.impl:
+            trait = opts.get("trait")
             for m in re.finditer(r"^impl\b[^{;]*?\b%s\b[^{;]*\{" % re.escape(f.impl), masked, flags=re.M):
-                if re.search(r"\bfor\s+%s\b" % re.escape(f.impl), m.group(0)):
-                    continue             # trait impls are not searched
+                is_trait = re.search(r"\bfor\s+&?\s*%s\b" % re.escape(f.impl), m.group(0))
+                if trait is None and is_trait:
+                    continue             # trait impls are searched only when the trait is named (`trait` option)
+                if trait is not None and not (is_trait and re.search(
+                        r"^impl\b(?:\s*<[^{;]*?>)?\s*%s\s+for\b" % re.escape(trait), m.group(0))):
+                    continue
                 spans.append((m.end() - 1, match_brace(masked, m.end() - 1)))
             if not spans:
-                raise Err("%s: no inherent impl block of %s" % (rel, f.impl))
+                raise Err("%s: no %s block of %s" % (rel, "`impl %s for`" % trait if trait else "inherent impl", f.impl))
             rx = re.compile(r"^[ \t]+(?:pub(?:\([a-z]+\))?\s+)?(?:const\s+)?fn\s+%s\b" % re.escape(name), re.M)
         else:
             spans.append((0, len(masked)))
@@ -269,7 +467,7 @@ class Gen:
         start = hits[0].start()
         attr = masked.rfind("\n", 0, max(0, start - 1))
         prev_line = masked[attr + 1:start].strip() if attr >= 0 else ""
-        if prev_line.startswith("#[cfg"):
+        if prev_line.startswith("#[cfg") and prev_line not in opts.get("allow_cfg", ()):
             raise Err("%s: fn %s is under %s" % (rel, qual, prev_line))
         ob, depth = -1, 0
         for k in range(start, len(masked)):
@@ -291,26 +489,45 @@ class Gen:
         f.text = text[start:cb + 1]
         f.sha1 = hashlib.sha1(f.text.encode()).hexdigest()
         code = masked[start:cb + 1]
+        for a, b in macro_subst.items():
+            if a not in code:
+                raise Err("%s: fn %s: macro parameter %s not used" % (rel, qual, a))
+            code = code.replace(a, b)
         if "snippet" in opts:
             # an expression inside the body of the named function, with declared free variables
             m = re.search(opts["snippet"], code)
             if not m or len(re.findall(opts["snippet"], code)) != 1:
                 raise Err("%s: fn %s: snippet pattern %r not found exactly once" % (rel, qual, opts["snippet"]))
+            ng = len(m.groups())
             f.line0 = text.count("\n", 0, start + m.start(1)) + 1
-            f.line1 = text.count("\n", 0, start + m.end(1)) + 1
-            f.text = text[start + m.start(1):start + m.end(1)]
+            f.line1 = text.count("\n", 0, start + m.end(ng)) + 1
+            # several groups: the pieces of the function that make up the snippet, in order
+            f.text = " ".join(text[start + m.start(g):start + m.end(g)] for g in range(1, ng + 1))
             f.sha1 = hashlib.sha1(f.text.encode()).hexdigest()
-            code = "fn %s() -> %s { %s }" % (opts["name"], opts["ret"], m.group(1))
+            # `tail`: the value of a snippet that consists of statements (it follows them)
+            code = "fn %s() -> %s { %s %s }" % (opts["name"], opts["ret"], " ".join(m.groups()), opts.get("tail", ""))
             f.within = qual
             f.qual = opts["name"]
-            f.impl = None
+            if not opts.get("keep_impl"):
+                f.impl = None
         for a, b in opts.get("subst", {}).items():
             if a not in code:
                 raise Err("%s: fn %s: text %r to substitute not found" % (rel, qual, a))
             code = code.replace(a, b)
+        for a, b in opts.get("resub", ()):          # the same with a regular expression (text spanning lines)
+            code, nsub = re.subn(a, b, code)
+            if nsub == 0:
+                raise Err("%s: fn %s: pattern %r to substitute not found" % (rel, qual, a))
+        if "name" in opts and "snippet" not in opts:
+            f.qual = opts["name"]                   # the same Rust fn translated twice under different substitutions
         try:
             p = Parser(lex(code), structs=self.records.keys())
             f.name, f.selfkind, f.params, f.ret = p.signature()
+            if "ret" in opts and "snippet" not in opts:
+                f.ret = Parser(lex(opts["ret"])).ty()
+            for i, x in enumerate(f.params):
+                if x[0] in opts.get("retype", {}):
+                    f.params[i] = (x[0], Parser(lex(opts["retype"][x[0]])).ty(), x[2])
             f.body = p.block()
             f.params = [x for x in f.params if x[0] not in opts.get("drop_params", ())]
             for pn, pt in opts.get("params", ()):
@@ -326,6 +543,8 @@ class Gen:
             if t[1] and t[2] == ("path", "Vec", [("path", "u8", [])]):
                 return "bytes"
             return self.ty(t[2], impl, where)
+        if k == "array" and t[1] == ("path", "u8", []) and (t[2] is None or t[2] > 16):
+            return "slice"               # [u8] / [u8; <expression>]: a byte list
         if k == "tuple":
             if len(t[1]) == 0:
                 return "unit"
@@ -337,6 +556,18 @@ class Gen:
             n, args = t[1], t[2]
             if n in INTW and not args:
                 return ("int", INTW[n])
+            if n in NEWTYPES and not args:
+                return ("int", INTW[NEWTYPES[n]], n)      # the third component names the newtype (method lookup)
+            if n in ALIASES and not args:
+                return ("int", INTW[ALIASES[n]])
+            if n == "Self" and impl in NEWTYPES:
+                return ("int", INTW[NEWTYPES[impl]], impl)
+            if n in self.enums and not args:
+                return ("enum", n)
+            if n == "Self" and impl in self.enums:
+                return ("enum", impl)
+            if n == "Vec" and len(args) == 1 and args[0][0] == "path" and args[0][1] in INTW and args[0][1] != "u8":
+                return ("vec", self.ty(args[0], impl, where))
             if n == "bool":
                 return "bool"
             if n == "Option" and len(args) == 1:
@@ -361,6 +592,10 @@ class Gen:
             return None if inner is None else "match %s with Some x_ => %s | None => true end" % (term, inner)
         if isinstance(t, tuple) and t[0] == "rec":
             return "(%s_dom %s)" % (t[1], term)
+        if t == "slice":
+            return "(all_bytes %s)" % term
+        if isinstance(t, tuple) and t[0] == "vec":
+            return "(forallb (fun x_ => %s) %s)" % (self.dom("x_", t[1]), term)
         if isinstance(t, tuple) and t[0] == "pair":
             a, b = self.dom("(fst %s)" % term, t[1]), self.dom("(snd %s)" % term, t[2])
             parts = [x for x in (a, b) if x]
@@ -374,8 +609,12 @@ class Gen:
             return "false"
         if t == "unit":
             return "tt"
-        if t == "bytes":
+        if t in ("bytes", "slice"):
             return "nil"
+        if t[0] == "vec":
+            return "nil"
+        if t[0] == "enum":
+            return self.enums[t[1]][0][1]
         if t[0] == "opt":
             return "None"
         if t[0] == "pair":
@@ -400,8 +639,13 @@ def assigned(node, acc):
     if isinstance(node, tuple):
         if node and node[0] == "assign" and node[2][0] == "path" and len(node[2][1]) == 1:
             acc.add(node[2][1][0])
+        if node and node[0] == "assign" and node[2][0] == "index" and node[2][1][0] == "path" and len(node[2][1][1]) == 1:
+            acc.add(node[2][1][1][0])
         if node and node[0] == "mcall" and node[2] in ("push", "extend_from_slice") and node[1][0] == "path":
             acc.add(node[1][1][0])
+        if node and node[0] == "mcall" and node[2] == "copy_from_slice" and node[1][0] == "index" \
+                and node[1][1][0] == "path" and len(node[1][1][1]) == 1:
+            acc.add(node[1][1][1][0])
         for x in node:
             assigned(x, acc)
     elif isinstance(node, list):
@@ -427,6 +671,8 @@ class Tr:
     """translation of one function in one mode ('val' or 'guard')"""
 
     def __init__(self, gen, f, mode):
+        self.ntry = 0
+        self.vec_elem = {}
         self.g, self.f, self.mode = gen, f, mode
         self.notes = f.notes
         self.nguards = 0
@@ -481,6 +727,14 @@ class Tr:
             self.err("integer widths differ (%s vs %s) in %s" % (a[1], b[1], what))
         if a == b:
             return a
+        if isinstance(a, tuple) and isinstance(b, tuple) and a[0] == b[0] == "pair":
+            return ("pair", self.unify(a[1], b[1], what), self.unify(a[2], b[2], what))
+        if isinstance(a, tuple) and isinstance(b, tuple) and a[0] == b[0] == "vec":
+            if a[1] is None:
+                return b
+            if b[1] is None:
+                return a
+            return ("vec", self.unify(a[1], b[1], what))
         if isinstance(a, tuple) and isinstance(b, tuple) and a[0] == b[0] == "opt":
             if a[1] is None:
                 return b
@@ -496,6 +750,15 @@ class Tr:
     def checked_conv(self, inner, env, target):
         """x.try_into().unwrap() / T::try_from(x).unwrap(): identity; range recorded in the guard"""
         t, ty, gs = self.expr(inner, env)
+        if ty in ("slice", "bytes"):
+            # <slice>.try_into().unwrap() : [u8; n] -- the little-endian number the n bytes hold
+            if target is not None and is_int(target) and target[1] is not None:
+                self.note("a byte slice converted to [u8; n] is the number `le_decode` of it; its length = n joins the guard")
+                return "(le_decode %s)" % t, target, gs + ["(slen %s =? %d)" % (t, target[1] // 8)]
+            if target == "slice":
+                self.note("a byte slice converted to an array of non-literal length stays a byte list (no length conjunct)")
+                return t, "slice", gs
+            self.err("byte slice converted to an array of unknown length")
         if not is_int(ty):
             self.err("checked conversion of non-integer %r" % (inner,))
         if target is not None and is_int(target) and target[1] is not None:
@@ -557,6 +820,8 @@ class Tr:
             return self.field(e, env)
         if k == "tfield":
             t, ty, gs = self.expr(e[1], env)
+            if is_int(ty) and e[2] == 0:
+                return t, ty, gs          # `.0` of a newtype struct (TransactionId, SavepointId): the integer itself
             if not (isinstance(ty, tuple) and ty[0] == "pair") or e[2] not in (0, 1):
                 self.err("tuple field .%s" % e[2])
             return "(%s %s)" % ("fst" if e[2] == 0 else "snd", t), ty[1 + e[2]], gs
@@ -568,7 +833,104 @@ class Tr:
             return self.mcall(e, env, expect)
         if k in BLOCKLIKE:
             return self.nested_blocklike(e, env, expect)
+        if k == "index":
+            return self.index(e, env)
+        if k == "arrayrep":
+            v, vty, gv = self.expr(e[1], env, ("int", 8))
+            n, nty, gn = self.expr(e[2], env, ("int", 64))
+            if not (is_int(vty) and is_int(nty)) or vty[1] not in (None, 8):
+                self.err("array repeat expression that is not [u8; n]")
+            return "(rep %s %s)" % (v, n), "slice", gv + gn
+        if k == "matches":
+            t, ty, gs = self.expr(e[1], env)
+            if not (isinstance(ty, tuple) and ty[0] == "enum"):
+                self.err("matches! on a value of type %r" % (ty,))
+            ctors = self.enum_pats(e[2], ty[1])
+            if ctors is None:
+                self.err("matches! pattern %r" % (e[2],))
+            return "(match %s with %s => true%s end)" % (
+                t, " | ".join(ctors), "" if len(ctors) == len(self.g.enums[ty[1]]) else " | _ => false"), "bool", gs
+        if k == "unreachable":
+            # unreachable!(): never evaluated by correct code -> `false` joins the guard, the value is a default
+            if expect is None:
+                self.err("unreachable!() where the expected type is not known")
+            self.note("unreachable!(): `false` joins the guard on that path; the value there is a default")
+            return self.g.default(expect), expect, ["false"]
+        if k == "try":
+            self.err("`?` in a position it cannot be hoisted from (inside `&&`/`||`, a closure or a nested block expression)")
+        if k == "closure":
+            self.err("closure outside Option::map / map_or / is_some_and")
         self.err("expression %r" % (e,))
+
+    # ------------------------------------------------------------ enums
+    def enum_ctor(self, enum, variant):
+        for v, c in self.g.enums[enum]:
+            if v == variant:
+                return c
+        self.err("enum %s has no variant %s" % (enum, variant))
+
+    def variant_of(self, name):
+        """the enums having a variant with this bare name (variants imported with `use E::*`)"""
+        return [en for en, vs in self.g.enums.items() if any(v == name for v, _ in vs)]
+
+    def enum_pats(self, pat, enum):
+        """constructors matched by a pattern on a value of enum type, None if it is not a variant pattern"""
+        if pat[0] == "por":
+            out = []
+            for q in pat[1]:
+                r = self.enum_pats(q, enum)
+                if r is None:
+                    return None
+                out += r
+            return out
+        if pat[0] == "ppath" and len(pat[1]) >= 2 and pat[1][-2] in (enum, "Self"):
+            return [self.enum_ctor(enum, pat[1][-1])]
+        if pat[0] == "pvar" and any(v == pat[1] for v, _ in self.g.enums[enum]):
+            return [self.enum_ctor(enum, pat[1])]
+        return None
+
+    # ------------------------------------------------------------ byte slices
+    def slice_bounds(self, t, rng, env):
+        """(lo term, hi term, guards) of x[lo..hi] on the slice term t"""
+        gs = []
+        lo, hi = "0", "(slen %s)" % t
+        if rng[1] is not None:
+            lo, lty, g = self.expr(rng[1], env, ("int", 64))
+            if not is_int(lty):
+                self.err("slice bound is not an integer")
+            gs += g
+        if rng[2] is not None:
+            hi, hty, g = self.expr(rng[2], env, ("int", 64))
+            if not is_int(hty):
+                self.err("slice bound is not an integer")
+            gs += g
+            if rng[3]:
+                hi = "(%s + 1)" % hi
+        return lo, hi, gs
+
+    def index(self, e, env):
+        t, ty, gs = self.expr(e[1], env)
+        idx = e[2]
+        if ty not in ("slice", "bytes"):
+            if isinstance(ty, tuple) and ty[0] == "vec" and idx[0] != "irange":
+                i, ity, gi = self.expr(idx, env, ("int", 64))
+                return "(nth (N.to_nat %s) %s %s)" % (i, t, self.g.default(ty[1])), ty[1], \
+                    gs + gi + ["(%s <? N.of_nat (length %s))" % (i, t)]
+            self.err("indexing a value of type %r" % (ty,))
+        if idx[0] == "irange":
+            lo, hi, g = self.slice_bounds(t, idx, env)
+            gs = gs + g
+            if idx[1] is None and idx[2] is None:
+                return t, "slice", gs
+            if idx[2] is None:
+                return "(slice_from %s %s)" % (t, lo), "slice", gs + ["(%s <=? slen %s)" % (lo, t)]
+            if idx[1] is None:
+                return "(slice_to %s %s)" % (t, hi), "slice", gs + ["(%s <=? slen %s)" % (hi, t)]
+            return "(slice %s %s %s)" % (t, lo, hi), "slice", gs + ["(andb (%s <=? %s) (%s <=? slen %s))" % (lo, hi, hi, t)]
+        i, ity, gi = self.expr(idx, env, ("int", 64))
+        if not is_int(ity):
+            self.err("index is not an integer")
+        return "(byte_at %s %s)" % (t, i), ("int", 8), gs + gi + ["(%s <? slen %s)" % (i, t)]
 
     def path(self, e, env, expect):
         segs = e[1]
@@ -577,6 +939,8 @@ class Tr:
             if n == "self":
                 if self.f.selfrec:
                     return "self", ("rec", self.f.selfrec), []
+                if self.f.selfty is not None:
+                    return "self", self.f.selfty, []
                 self.err("`self` used as a value")
             if n in env:
                 return env[n].coq, env[n].ty, []
@@ -587,9 +951,16 @@ class Tr:
             if c:
                 w = self.const_width(n)
                 return c, ("int", w), []
+            ens = self.variant_of(n)
+            if len(ens) == 1:
+                return self.enum_ctor(ens[0], n), ("enum", ens[0]), []
             self.err("unknown name `%s`" % n)
         if len(segs) == 2 and segs[0] in INTW and segs[1] == "MAX":
             return str(2 ** INTW[segs[0]] - 1), ("int", INTW[segs[0]]), []
+        if len(segs) >= 2:
+            en = self.f.impl if segs[-2] == "Self" else segs[-2]
+            if en in self.g.enums:
+                return self.enum_ctor(en, segs[-1]), ("enum", en), []
         self.err("path `%s`" % "::".join(segs))
 
     def const_width(self, name):
@@ -690,18 +1061,33 @@ class Tr:
             self.err("struct literal of %s has unknown fields" % name)
         return "(mk%s %s)" % (name, " ".join(args)), ("rec", name), gs
 
-    def user_call(self, qual, args, env, recv=None):
+    def user_call(self, qual, args, env, recv=None, selfargs=None):
         fn = self.g.fns.get(qual)
         if fn is None:
             return None
         ptys = [t for _, t in fn.cparams]
+        pnames = [n for n, _ in fn.cparams]
         ts, gs = [], []
         if recv is not None:
+            if not (fn.selfrec or fn.selfty is not None):
+                self.err("call of %s with a receiver" % qual)
             ts.append(recv[0])
             gs += recv[2]
-            ptys = ptys[1:]
-        elif fn.selfrec or fn.selfparams:
+            ptys, pnames = ptys[1:], pnames[1:]
+        elif selfargs is not None:
+            ts += selfargs
+            ptys, pnames = ptys[len(selfargs):], pnames[len(selfargs):]
+        elif fn.selfrec or fn.selfparams or fn.selfty is not None:
             self.err("call of method %s without receiver" % qual)
+        # parameters the callee got from its `params` option (substituted impure terms) are passed on implicitly
+        # from the caller's variable of the same name
+        implicit = []
+        while len(args) + len(implicit) < len(ptys) and pnames[len(ptys) - len(implicit) - 1] in fn.implicit:
+            n = pnames[len(ptys) - len(implicit) - 1]
+            if n not in env:
+                self.err("call of %s: no variable `%s` to pass on implicitly" % (qual, n))
+            implicit.insert(0, ("path", [n], None))
+        args = list(args) + implicit
         if len(args) != len(ptys):
             self.err("call of %s with %d arguments" % (qual, len(args)))
         for a, pt in zip(args, ptys):
@@ -722,6 +1108,9 @@ class Tr:
             if tn in SIZEOF:
                 return str(SIZEOF[tn]), ("int", 64), []
             self.err("size_of::<%r>" % (generic,))
+        if name in ("Vec::new", "Vec::with_capacity") and len(args) <= 1:
+            inner = expect[1] if isinstance(expect, tuple) and expect[0] == "vec" else None
+            return "[]", ("vec", inner), []
         if name == "Some" and len(args) == 1:
             inner = expect[1] if isinstance(expect, tuple) and expect[0] == "opt" else None
             t, ty, gs = self.expr(args[0], env, inner)
@@ -734,13 +1123,25 @@ class Tr:
         if name == "Err" and len(args) == 1:
             inner = expect[1] if isinstance(expect, tuple) and expect[0] == "opt" else None
             return "None", ("opt", inner), []
+        if len(segs) == 2 and segs[0] in ALIASES:
+            segs = [ALIASES[segs[0]], segs[1]]
+            name = "::".join(segs)
+        if len(segs) == 1 and (segs[0] in NEWTYPES or (segs[0] == "Self" and self.f.impl in NEWTYPES)) and len(args) == 1:
+            nt = self.f.impl if segs[0] == "Self" else segs[0]
+            w = INTW[NEWTYPES[nt]]
+            t, ty, gs = self.expr(args[0], env, ("int", w))
+            self.unify(ty, ("int", w), "newtype constructor %s" % nt)
+            self.note("the newtype struct %s(%s) is the integer it wraps" % (nt, NEWTYPES[nt]))
+            return t, ("int", w, nt), gs
         if len(segs) == 2 and segs[0] in INTW and segs[1] == "from" and len(args) == 1:
             t, ty, gs = self.expr(args[0], env)
+            if ty == "bool":
+                return "(b2n %s)" % t, ("int", INTW[segs[0]]), gs      # uN::from(bool): 1 / 0
             if not is_int(ty) or (ty[1] is not None and ty[1] > INTW[segs[0]]):
                 self.err("%s of %r" % (name, ty))
             return t, ("int", INTW[segs[0]]), gs          # lossless widening: exact
-        if len(segs) == 2 and segs[0] in INTW and segs[1] == "from_le_bytes" and len(args) == 1:
-            t, ty, gs = self.expr(args[0], env)
+        if len(segs) == 2 and segs[0] in INTW and segs[1] in ("from_le_bytes", "to_le_bytes") and len(args) == 1:
+            t, ty, gs = self.expr(args[0], env, ("int", INTW[segs[0]]))
             if ty != ("int", INTW[segs[0]]):
                 self.err("%s of %r" % (name, ty))
             self.note("[u8; n] values stand for the little-endian number they hold: from_le_bytes/to_le_bytes are the identity")
@@ -785,11 +1186,52 @@ class Tr:
                 self.note("`.into()` of `%s` with target type not inferred: identity (From is lossless)" % t)
                 return t, ("int", None), gs
             self.err(".into() of %r" % (ty,))
+        if recv == ("path", ["self"], None) and not self.f.selfrec and self.f.selfty is None and self.f.impl:
+            # self.method(..) inside an impl whose type is not a record: the callee's `self_*` parameters are ours
+            fn = self.g.fns.get("%s::%s" % (self.f.impl, name))
+            if fn is None:
+                self.err("method self.%s (not in WANT before this function)" % name)
+            for key in fn.selfparams:
+                if key not in self.f.selfparams:
+                    self.err("self.%s needs `%s`, which this function does not have" % (name, key))
+            return self.user_call(fn.qual, args, env, selfargs=list(fn.selfparams))
         t, ty, gs = self.expr(recv, env)
         if ty == "bytes":
             self.err("Vec<u8> method .%s used as a value" % name)
+        if ty == "slice":
+            if name == "len" and not args:
+                return "(slen %s)" % t, ("int", 64), gs
+            if name == "is_empty" and not args:
+                return "(slen %s =? 0)" % t, "bool", gs
+            if name in ("as_slice", "as_ref", "to_vec", "clone") and not args:
+                return t, ty, gs
+            if name == "get" and len(args) == 1 and args[0][0] == "range":
+                lo, lty, gl = self.expr(args[0][1], env, ("int", 64))
+                hi, hty, gh = self.expr(args[0][2], env, ("int", 64))
+                if not (is_int(lty) and is_int(hty)):
+                    self.err("slice bound is not an integer")
+                return "(slice_get %s %s %s)" % (t, lo, hi), ("opt", "slice"), gs + gl + gh
+            self.err("byte slice method .%s/%d" % (name, len(args)))
+        if isinstance(ty, tuple) and ty[0] == "vec":
+            if name == "len" and not args:
+                return "(N.of_nat (length %s))" % t, ("int", 64), gs
+            self.err("Vec method .%s used as a value" % name)
+        if is_int(ty) and name == "cmp" and len(args) == 1:
+            b, bty, gb = self.expr(args[0], env, ty)
+            self.unify(ty, bty, ".cmp")
+            return "(%s ?= %s)" % (t, b), ("enum", "Ordering"), gs + gb
+        if is_int(ty) and name == "checked_sub" and len(args) == 1:
+            b, bty, gb = self.expr(args[0], env, ty)
+            self.unify(ty, bty, ".checked_sub")
+            return "(if %s <=? %s then Some (%s - %s) else None)" % (b, t, t, b), ("opt", ty), gs + gb
+        if is_int(ty) and len(ty) == 3 and ("%s::%s" % (ty[2], name)) in self.g.fns:
+            return self.user_call("%s::%s" % (ty[2], name), args, env, recv=(t, ty, gs))
         if is_int(ty):
             return self.int_method(t, ty, gs, name, args, env, expect)
+        if isinstance(ty, tuple) and ty[0] == "enum" and ("%s::%s" % (ty[1], name)) in self.g.fns:
+            return self.user_call("%s::%s" % (ty[1], name), args, env, recv=(t, ty, gs))
+        if isinstance(ty, tuple) and ty[0] == "enum" and name in ("clone",) and not args:
+            return t, ty, gs
         if isinstance(ty, tuple) and ty[0] == "opt":
             if name == "is_none" and not args:
                 return "(isNone %s)" % t, "bool", gs
@@ -805,6 +1247,38 @@ class Tr:
             if name == "unwrap" and not args:
                 self.note("Option::unwrap(): `isSome` joins the guard; the value on None is a default")
                 return "(unwrap_or %s %s)" % (t, self.g.default(ty[1])), ty[1], gs + ["(isSome %s)" % t]
+            if name in ("map", "map_or", "is_some_and") and args and args[-1][0] == "closure" \
+                    and len(args) == (2 if name == "map_or" else 1):
+                # Option::map(|x| e) / map_or(d, |x| e) / is_some_and(|x| e): a match on the option
+                cl = args[-1]
+                if len(cl[1]) != 1:
+                    self.err("closure with %d parameters" % len(cl[1]))
+                if contains(cl[2], "try") or contains(cl[2], "return") or assigned(cl[2], set()) & set(env.keys()):
+                    self.err("closure body with `?`, return or assignment")
+                self.depth += 1
+                try:
+                    env2 = dict(env)
+                    pat = self.bindpat(cl[1][0], ty[1], env2)
+                    exp_body = {"map": expect[1] if isinstance(expect, tuple) and expect[0] == "opt" else None,
+                                "map_or": expect, "is_some_and": "bool"}[name]
+                    bt, bty, bg = self.expr(cl[2], env2, exp_body)
+                finally:
+                    self.depth -= 1
+                if pat.startswith("'"):
+                    head, pat = "Some x_ => let %s := x_ in" % pat, "x_"
+                else:
+                    head = "Some %s =>" % pat
+                if bg:
+                    gs = gs + ["match %s with %s %s | None => true end" % (t, head, conj(bg))]
+                if name == "map":
+                    return "(match %s with %s Some %s | None => None end)" % (t, head, bt), ("opt", bty), gs
+                if name == "is_some_and":
+                    if bty != "bool":
+                        self.err("is_some_and closure is not a bool")
+                    return "(match %s with %s %s | None => false end)" % (t, head, bt), "bool", gs
+                d, dty, dg = self.expr(args[0], env, bty)
+                rty = self.unify(bty, dty, "map_or")
+                return "(match %s with %s %s | None => %s end)" % (t, head, bt, d), rty, gs + dg
             if name == "map" and len(args) == 1 and args[0][0] == "path":
                 segs = args[0][1]
                 qual = "::".join(segs)
@@ -892,6 +1366,55 @@ class Tr:
     def has_guard_sources(self, e):
         return contains(e, "mcall") or contains(e, "call")
 
+    # ------------------------------------------------------------ `?`
+    def hoist(self, e, binds):
+        """replace every `inner?` of e that is evaluated unconditionally by a fresh variable (left to right,
+        innermost first); binds collects (variable, inner).  `?` below `&&`/`||`, closures and block
+        expressions stays (and is rejected by expr)."""
+        if isinstance(e, list):
+            return [self.hoist(x, binds) for x in e]
+        if not isinstance(e, tuple) or not e:
+            return e
+        k = e[0]
+        if k == "try":
+            inner = self.hoist(e[1], binds)
+            self.ntry += 1
+            v = "q%d_" % self.ntry
+            binds.append((v, inner))
+            return ("path", [v], None)
+        if k in BLOCKLIKE or k == "closure":
+            return e
+        if k == "bin" and e[1] in ("&&", "||"):
+            return ("bin", e[1], self.hoist(e[2], binds), e[3])
+        if k == "struct":
+            return ("struct", e[1], [(fn, self.hoist(x, binds)) for fn, x in e[2]])
+        return tuple(self.hoist(x, binds) if isinstance(x, (tuple, list)) else x for x in e)
+
+    def with_tries(self, e, env, cont):
+        """translate `e` with its `?` operators: each becomes `match inner with Some q => .. | None => <return None>`"""
+        if not contains(e, "try"):
+            return cont(e, env)
+        if self.f.cret is None or not (isinstance(self.f.cret, tuple) and self.f.cret[0] == "opt"):
+            self.err("`?` in a function that does not return Option/Result")
+        binds = []
+        e2 = self.hoist(e, binds)
+        if not binds:
+            return cont(e2, env)
+        self.note("`?` is a match on the option: None (Err) returns None from the function")
+
+        def go(i, env2):
+            if i == len(binds):
+                return cont(e2, env2)
+            v, inner = binds[i]
+            t, ty, gs = self.expr(inner, env2)
+            if not (isinstance(ty, tuple) and ty[0] == "opt") or ty[1] is None:
+                self.err("`?` on a value of type %r" % (ty,))
+            env3 = dict(env2)
+            env3[v] = Var(v, ty[1], self.depth)
+            none = "None" if self.mode == "val" else "g_"
+            return self.emit_guards(gs, "match %s with\n| Some %s =>\n%s\n| None => %s\nend" % (t, v, go(i + 1, env3), none))
+        return go(0, env)
+
     # ------------------------------------------------------------ statements
     def block(self, blk, env, k):
         """translate a block in a new scope; k(value_term|None, type, env) builds what follows its value"""
@@ -907,9 +1430,18 @@ class Tr:
                 return k(None, "unit", env)
             if tail[0] in BLOCKLIKE:
                 return self.blocklike_tail(tail, env, k, self.tail_expect)
+            if contains(tail, "try"):
+                return self.with_tries(tail, env, lambda e2, env2: self.stmts([], 0, e2, env2, k))
             t, ty, gs = self.expr(tail, env, self.tail_expect)
             return self.emit_guards(gs, k(t, ty, env))
         s = items[i]
+        # `?` inside the expression of a simple statement: bind the options first, then the statement itself
+        where = {"let": 3, "assign": 3, "return": 1, "expr": 1}.get(s[0])
+        if where is not None and s[where] is not None and s[where][0] not in BLOCKLIKE and contains(s[where], "try"):
+            def again(e2, env2):
+                s2 = s[:where] + (e2,) + s[where + 1:]
+                return self.stmts([s2] + list(items[i + 1:]), 0, tail, env2, k)
+            return self.with_tries(s[where], env, again)
 
         def rest(env2):
             return self.stmts(items, i + 1, tail, env2, k)
@@ -923,6 +1455,21 @@ class Tr:
                 ty = self.unify(ty, expect, "let annotation")
             pat = self.bindpat(s[1], ty, env)
             return self.emit_guards(gs, "let %s := %s in\n%s" % (pat, t, rest(env)))
+        if kind == "assign" and s[2][0] == "index":
+            op, lhs, rhs = s[1], s[2], s[3]
+            base = lhs[1]
+            if base[0] != "path" or len(base[1]) != 1 or base[1][0] not in env or env[base[1][0]].ty != "slice" \
+                    or lhs[2][0] == "irange":
+                self.err("assignment to `%r`" % (lhs,))
+            v = env[base[1][0]]
+            it, ity, gi = self.expr(lhs[2], env, ("int", 64))
+            if op == "=":
+                t, ty, gs = self.expr(rhs, env, ("int", 8))
+            else:
+                t, ty, gs = self.expr(("bin", op[:-1], lhs, rhs), env, ("int", 8))
+            self.unify(ty, ("int", 8), "assignment to a byte")
+            return self.emit_guards(gi + gs + ["(%s <? slen %s)" % (it, v.coq)],
+                                    "let %s := (set_byte %s %s %s) in\n%s" % (v.coq, v.coq, it, t, rest(env)))
         if kind == "assign":
             op, lhs, rhs = s[1], s[2], s[3]
             if lhs[0] != "path" or len(lhs[1]) != 1 or lhs[1][0] not in env:
@@ -957,6 +1504,8 @@ class Tr:
                 self.tail_expect = saved
         if kind == "while":
             return self.while_(s, env, rest)
+        if kind == "for":
+            return self.for_(s, env, rest)
         if kind == "expr":
             e = s[1]
             if e[0] in BLOCKLIKE:
@@ -978,8 +1527,90 @@ class Tr:
                             self.err("to_le_bytes of unknown width")
                         return self.emit_guards(gs, "let %s := (%s ++ le_encode %d%%nat %s) in\n%s"
                                                 % (v.coq, v.coq, ty[1] // 8, t, rest(env)))
+            if e[0] == "mcall" and e[2] == "copy_from_slice" and len(e[3]) == 1 and e[1][0] == "index" \
+                    and e[1][1][0] == "path" and len(e[1][1][1]) == 1 and e[1][1][1][0] in env \
+                    and env[e[1][1][1][0]].ty == "slice" and e[1][2][0] == "irange":
+                # x[a..b].copy_from_slice(&src): the bytes a..b of x are replaced; the lengths must agree
+                v = env[e[1][1][1][0]]
+                lo, hi, gb = self.slice_bounds(v.coq, e[1][2], env)
+                src, gsrc = self.byte_source(e[3][0], env)
+                g = "(andb (andb (%s <=? %s) (%s <=? slen %s)) (slen %s =? %s - %s))" % (lo, hi, hi, v.coq, src, hi, lo)
+                return self.emit_guards(gb + gsrc + [g], "let %s := (splice %s %s %s) in\n%s" % (v.coq, v.coq, lo, src, rest(env)))
+            if e[0] == "mcall" and e[1][0] == "path" and len(e[1][1]) == 1 and e[1][1][0] in env \
+                    and isinstance(env[e[1][1][0]].ty, tuple) and env[e[1][1][0]].ty[0] == "vec" \
+                    and e[2] == "push" and len(e[3]) == 1:
+                v = env[e[1][1][0]]
+                t, ty, gs = self.expr(e[3][0], env, v.ty[1])
+                if v.ty[1] is None:
+                    self.vec_elem[v.coq] = ty
+                    env = dict(env)
+                    env[e[1][1][0]] = v = Var(v.coq, ("vec", ty), v.depth)
+                self.unify(ty, v.ty[1], "Vec::push")
+                return self.emit_guards(gs, "let %s := (%s ++ [%s]) in\n%s" % (v.coq, v.coq, t, rest(env)))
             self.err("expression statement %r" % (e,))
         self.err("statement %r" % (s,))
+
+    def byte_source(self, a, env):
+        """the byte list written by copy_from_slice / extend: x.to_le_bytes(), a [u8; n] number, or a byte slice"""
+        while a[0] in ("borrow", "paren"):
+            a = a[1]
+        if a[0] == "mcall" and a[2] == "to_le_bytes" and not a[3]:
+            t, ty, gs = self.expr(a[1], env)
+            if is_int(ty) and ty[1] is not None:
+                return "(le_encode %d%%nat %s)" % (ty[1] // 8, t), gs
+        if a[0] == "call" and len(a[1]) == 2 and a[1][0] in INTW and a[1][1] == "to_le_bytes" and len(a[3]) == 1:
+            t, ty, gs = self.expr(a[3][0], env, ("int", INTW[a[1][0]]))
+            self.unify(ty, ("int", INTW[a[1][0]]), "to_le_bytes")
+            return "(le_encode %d%%nat %s)" % (INTW[a[1][0]] // 8, t), gs
+        t, ty, gs = self.expr(a, env)
+        if ty == "slice":
+            return t, gs
+        if is_int(ty) and ty[1] is not None:
+            self.note("a [u8; n] value written into a buffer is `le_encode n` of the number it stands for")
+            return "(le_encode %d%%nat %s)" % (ty[1] // 8, t), gs
+        self.err("source of copy_from_slice of type %r" % (ty,))
+
+    def for_(self, s, env, rest):
+        """for i in a..b { body }: a fold over the range with the assigned variables as the state"""
+        pat, it, body = s[1], s[2], s[3]
+        if it[0] == "paren":
+            it = it[1]
+        if it[0] != "range":
+            self.err("`for` over something that is not a range a..b")
+        if pat[0] not in ("pvar", "pwild"):
+            self.err("`for` pattern %r" % (pat,))
+        if contains(body, "return") or contains(body, "try"):
+            self.err("return / `?` inside a for loop")
+        a, ta, ga = self.expr(it[1], env)
+        b, tb, gb = self.expr(it[2], env, ta if is_int(ta) else None)
+        if is_int(ta) and ta[1] is None and is_int(tb):
+            a, ta, ga = self.expr(it[1], env, tb)
+        if not (is_int(ta) and is_int(tb)):
+            self.err("`for` range bounds are not integers")
+        ity = self.unify(ta, tb, "for range")
+        names = sorted(assigned(body, set()) & set(env.keys()))
+        comps = [env[n].coq for n in names]
+        if self.mode == "guard":
+            comps.append("g_")
+        if not comps:
+            return rest(env)               # a loop without effect on anything tracked
+        tup = comps[0] if len(comps) == 1 else "'(%s)" % ", ".join(comps)
+        val = comps[0] if len(comps) == 1 else "(%s)" % ", ".join(comps)
+
+        def kb(v, ty, env2):
+            return val
+        self.depth += 1
+        try:
+            env2 = dict(env)
+            iv = self.declare(env2, pat[1], ity) if pat[0] == "pvar" else "_"
+            bt = self.block(body, env2, kb)
+        finally:
+            self.depth -= 1
+        self.note("`for i in a..b` is for_range a b (a fold over the b - a indices; nothing when b <= a)")
+        binder = "st_" if len(comps) > 1 else comps[0]
+        inner = ("let %s := st_ in\n%s" % (tup, bt)) if len(comps) > 1 else bt
+        return self.emit_guards(ga + gb, "let %s := for_range %s %s (fun %s %s =>\n%s) %s in\n%s" % (
+            tup, a, b, iv, binder, inner, val, rest(env)))
 
     def while_(self, s, env, rest):
         fuel = self.f.opts.get("fuel")
@@ -1052,21 +1683,66 @@ class Tr:
                 self.depth -= 1
             b = self.arm(none, env, kbranch)
             return self.emit_guards(gs, "match %s with\n| Some %s =>\n%s\n| None =>\n%s\nend" % (t, x, a, b))
+        if isinstance(ty, tuple) and ty[0] == "enum":
+            # a match on an enum with unit variants: a Coq match on the (generated) Inductive
+            variants = [c for _, c in self.g.enums[ty[1]]]
+            seen, outarms = [], []
+            for pat, body in arms:
+                if pat[0] == "pwild":
+                    left = [c for c in variants if c not in seen]
+                    if left:
+                        outarms.append(("_", body))
+                    seen = list(variants)
+                    break
+                ctors = self.enum_pats(pat, ty[1])
+                if ctors is None:
+                    self.err("match arm pattern %r on the enum %s" % (pat, ty[1]))
+                ctors = [c for c in ctors if c not in seen]
+                if ctors:
+                    outarms.append((" | ".join(ctors), body))
+                    seen += ctors
+            if set(seen) != set(variants):
+                self.err("match on the enum %s does not cover %s" % (ty[1], [c for c in variants if c not in seen]))
+            text = "match %s with" % t
+            for lhs, body in outarms:
+                text += "\n| %s =>\n%s" % (lhs, self.arm(body, env, kbranch))
+            return self.emit_guards(gs, text + "\nend")
         if is_int(ty):
             out = None
             chain = []
-            for pat, body in arms:
+
+            def int_pat(pat):
                 if pat[0] == "plit":
-                    chain.append(("(%s =? %d)" % (t, pat[1]), body, None))
-                elif pat[0] == "prange":
-                    chain.append(("(andb (%d <=? %s) (%s <=? %d))" % (pat[1], t, t, pat[2]), body, None))
+                    return "(%s =? %d)" % (t, pat[1])
+                if pat[0] == "prange":
+                    return "(andb (%d <=? %s) (%s <=? %d))" % (pat[1], t, t, pat[2])
+                if pat[0] == "pvar" and pat[1] not in env and self.g.const(self.f.rel, pat[1]):
+                    return "(%s =? %s)" % (t, self.g.const(self.f.rel, pat[1]))     # a constant used as a pattern
+                if pat[0] == "por":
+                    parts = [int_pat(q) for q in pat[1]]
+                    if any(x is None for x in parts):
+                        self.err("match arm pattern %r on an integer" % (pat,))
+                    out = parts[0]
+                    for x in parts[1:]:
+                        out = "(orb %s %s)" % (out, x)
+                    return out
+                return None
+            for pat, body in arms:
+                c = int_pat(pat)
+                if c is not None:
+                    chain.append((c, body, None))
                 elif pat[0] in ("pwild", "pvar"):
                     chain.append((None, body, pat[1] if pat[0] == "pvar" else None))
                     break
                 else:
                     self.err("match arm pattern %r on an integer" % (pat,))
-            if not chain or chain[-1][0] is not None:
-                self.err("match on an integer without a catch-all arm")
+            if chain and chain[-1][0] is not None:
+                # no catch-all arm: rustc has checked that the arms are exhaustive for the integer type, so the
+                # last arm is taken whenever none of the earlier ones is
+                self.note("match on an integer without catch-all arm: the last arm is the `else` (the arms are exhaustive for the Rust type)")
+                chain[-1] = (None, chain[-1][1], None)
+            if not chain:
+                self.err("match on an integer without arms")
             for cond, body, bind in reversed(chain):
                 if cond is None:
                     self.depth += 1
@@ -1208,16 +1884,24 @@ def indent(term):
 def translate_fn(gen, f):
     f.notes = []
     f.selfrec = None
+    f.selfty = None
     f.selfparams = {}
     f.sink = None
+    f.implicit = set(n for n, _ in f.opts.get("params", ()))
     where = "%s: fn %s" % (f.rel, f.qual)
     cparams = []
     if f.selfkind:
-        if f.selfkind == "&mut":
+        if f.selfkind == "&mut" and not f.opts.get("mut_self"):
             raise Err("%s: &mut self method" % where)
         if f.impl in gen.records:
             f.selfrec = f.impl
             cparams.append(("self", ("rec", f.impl)))
+        elif f.impl in NEWTYPES:
+            f.selfty = ("int", INTW[NEWTYPES[f.impl]], f.impl)
+            cparams.append(("self", f.selfty))
+        elif f.impl in gen.enums:
+            f.selfty = ("enum", f.impl)
+            cparams.append(("self", f.selfty))
         else:
             # every `self.a.b` chain in the body becomes a leading parameter self_a_b
             chains = []
@@ -1234,18 +1918,25 @@ def translate_fn(gen, f):
                             if ch not in chains:
                                 chains.append(ch)
                             return
+                    if node and node[0] == "mcall" and node[1] == ("path", ["self"], None):
+                        callee = gen.fns.get("%s::%s" % (f.impl, node[2]))
+                        if callee is not None:
+                            for ch in callee.selfchains:
+                                if ch not in chains:
+                                    chains.append(ch)
                     for x in node:
                         walk(x)
                 elif isinstance(node, list):
                     for x in node:
                         walk(x)
             walk(f.body)
+            f.selfchains = chains
             for ch in chains:
                 sname, t = f.impl, None
                 for fld in ch:
                     if sname is None:
                         raise Err("%s: self.%s: field of a non-struct" % (where, ".".join(ch)))
-                    fields = dict(gen.struct_fields(f.rel, sname))
+                    fields = dict(gen.struct_fields(f.opts.get("struct_file", f.rel), sname))
                     if fld not in fields or fields[fld] is None:
                         raise Err("%s: self.%s: field %s of %s not found / not translatable" % (where, ".".join(ch), fld, sname))
                     t = fields[fld]
@@ -1280,7 +1971,8 @@ def translate_fn(gen, f):
     lines.append("(* %s  %s  sha1=%s" % (f.qual, f.rel, f.sha1))
     gen.index.append("%-45s %s:%d-%d  sha1=%s" % (f.coq, f.rel, f.line0, f.line1, f.sha1))
     if f.within:
-        lines.append("   an expression inside fn %s: `%s`" % (f.within, " ".join(f.text.split())))
+        shown = " ".join(f.text.split()).replace("(*", "( *").replace("*)", "* )")
+        lines.append("   an expression inside fn %s: `%s`" % (f.within, shown if len(shown) <= 300 else shown[:300] + " ..."))
     for a, b in f.opts.get("subst", {}).items():
         lines.append("   `%s` is the parameter `%s`" % (a, b))
     if f.opts.get("drop_params"):
@@ -1322,6 +2014,33 @@ def record_decl(gen, rel, name):
     return "\n".join(out)
 
 
+def enum_decl(gen, rel, name):
+    """a Rust enum whose variants are all unit variants -> Inductive <name> := <name>_<Variant> | ..."""
+    text, masked = gen.src(rel)
+    m = re.search(r"\benum\s+%s\b[^{;(]*\{" % re.escape(name), masked)
+    if not m:
+        raise Err("%s: enum %s not found" % (rel, name))
+    end = match_brace(masked, m.end() - 1)
+    body = masked[m.end():end]
+    variants = []
+    for part in body.split(","):
+        part = part.strip()
+        if not part:
+            continue
+        if not re.fullmatch(r"[A-Za-z_][A-Za-z_0-9]*", part):
+            raise Err("%s: enum %s: variant `%s` is not a unit variant" % (rel, name, " ".join(part.split())))
+        variants.append(part)
+    if not variants:
+        raise Err("%s: enum %s has no variants" % (rel, name))
+    gen.enums[name] = [(v, "%s_%s" % (name, v)) for v in variants]
+    line0 = text.count("\n", 0, m.start()) + 1
+    line1 = text.count("\n", 0, end) + 1
+    sha = hashlib.sha1(text[m.start():end + 1].encode()).hexdigest()
+    gen.index.append("%-45s %s:%d-%d  sha1=%s" % ("enum " + name, rel, line0, line1, sha))
+    return "(* enum %s  %s  sha1=%s *)\nInductive %s := %s." % (
+        name, rel, sha, name, " | ".join(c for _, c in gen.enums[name]))
+
+
 HEADER_TXT = """(* GENERATED by tools/gen_fns.py from the Rust sources -- do not edit.
    One Definition per Rust function; its source file and the sha1 of its text are given before each, the
    line ranges are in Gen/Fns.index (kept out of this file so that shifted lines cause no rebuild);
@@ -1329,7 +2048,7 @@ HEADER_TXT = """(* GENERATED by tools/gen_fns.py from the Rust sources -- do not
    <f>_dom   = every parameter inside the range of its Rust integer type (usize = u64).
    Integers are unbounded N: `+ *` do not wrap, `-` is truncated subtraction (see design.d/GEN.md). *)
 From Coq Require Import NArith List Bool.
-From RV Require Import Base.Bytes Gen.Consts Gen.FnsLib.
+From RV Require Import Base.Bytes Gen.Consts Gen.FnsLib Gen.FnsLibB.
 Import ListNotations.
 Open Scope N_scope.
 """
@@ -1338,12 +2057,29 @@ Open Scope N_scope.
 gen_index = []
 
 
-def generate(repo, want=None, structs=None):
+def generate(repo, want=None, structs=None, enums=None):
     gen = Gen(repo)
     parts = [HEADER_TXT]
-    for rel, name in (STRUCTS if structs is None else structs):
-        parts.append(record_decl(gen, rel, name))
     errors = []
+    for rel, name in (ENUMS if enums is None else enums):
+        # an enum that is no longer a plain list of unit variants is left out; the functions using it follow
+        try:
+            parts.append(enum_decl(gen, rel, name))
+        except (Err, Unsupported) as ex:
+            errors.append("%s" % ex)
+            parts.append("(* UNTRANSLATABLE enum %s: no Inductive emitted.\n   %s *)" % (name, str(ex).replace("*)", "* )")))
+    for ent in (STRUCTS if structs is None else structs):
+        rel, name = ent[0], ent[1]
+        if len(ent) > 2:
+            # a struct added for the byte codecs: when it can no longer be translated only its users are left out
+            try:
+                parts.append(record_decl(gen, rel, name))
+            except (Err, Unsupported) as ex:
+                gen.records.pop(name, None)
+                errors.append("%s" % ex)
+                parts.append("(* UNTRANSLATABLE struct %s: no Record emitted.\n   %s *)" % (name, str(ex).replace("*)", "* )")))
+        else:
+            parts.append(record_decl(gen, rel, name))
     for rel, qual, opts in (WANT if want is None else want):
         # a function that cannot be translated is left out (with the reason as a comment): exactly the proofs
         # that mention it stop compiling, i.e. exactly the properties relying on it lose their S1
@@ -1351,7 +2087,9 @@ def generate(repo, want=None, structs=None):
             f = gen.locate(rel, qual, opts)
             parts.append(translate_fn(gen, f))
             gen.fns[f.qual] = f
-        except (Err, Unsupported) as ex:
+        except Exception as ex:     # noqa: BLE001  (Err / Unsupported, and any internal error of the translator)
+            if not isinstance(ex, (Err, Unsupported)):
+                ex = Err("%s: fn %s: internal error of the translator: %s: %s" % (rel, qual, type(ex).__name__, ex))
             name = opts.get("name", qual.replace("::", "_"))
             errors.append("%s" % ex)
             parts.append("(* UNTRANSLATABLE %s (%s): no definition emitted.\n   %s *)"
